@@ -6,18 +6,21 @@ import TlsProofs.OrderRun
 namespace Tls.Order
 
 theorem step_cases (c : Cfg) (s : St) (ep n : Nat) (m : Msg) :
-    step c s ep n m = stepK0 c s m.kind ∨ (∃ a, step c s ep n m = .abort a) := by
+    step c s ep n m = stepK0 c s m.kind ∨ (∃ a, step c s ep n m = .abort a) ∨
+    (∃ a, step c s ep n m = .acceptAbort a ∧ firstHello c s m.kind = true) := by
   unfold step
   split
-  · rcases stepK_plus c s m.kind m.plus with h | h
+  · rcases stepK_plus c s m.kind m.plus with h | h | h
     · exact Or.inl h
-    · exact Or.inr ⟨_, h⟩
-  · exact Or.inr ⟨_, rfl⟩
+    · exact Or.inr (Or.inl ⟨_, h⟩)
+    · exact Or.inr (Or.inr ⟨_, h⟩)
+  · exact Or.inr (Or.inl ⟨_, rfl⟩)
 
 theorem step_hs (c : Cfg) (s : St) (ep n : Nat) (m : Msg) (hd : s ≠ .done) :
     step c s ep n m ≠ .warn ∧ step c s ep n m ≠ .deliver ∧ step c s ep n m ≠ .post := by
-  rcases step_cases c s ep n m with h | ⟨a, h⟩
+  rcases step_cases c s ep n m with h | ⟨a, h⟩ | ⟨a, h, _⟩
   · rw [h]; exact stepK0_hs c s m.kind hd
+  · rw [h]; simp
   · rw [h]; simp
 
 /-- outcomes of `stepDone`: completion is never left except by closing the connection -/
@@ -29,8 +32,9 @@ theorem stepDone_no_next (c : Cfg) (k : MsgKind) : ∀ s b, stepDone c k ≠ .ne
 
 theorem step_done_no_next (c : Cfg) (ep n : Nat) (m : Msg) : ∀ s b, step c .done ep n m ≠ .next s b := by
   intro s b
-  rcases step_cases c .done ep n m with h | ⟨a, h⟩
+  rcases step_cases c .done ep n m with h | ⟨a, h⟩ | ⟨a, h, _⟩
   · rw [h]; simp only [stepK0]; exact stepDone_no_next c m.kind s b
+  · rw [h]; simp
   · rw [h]; simp
 
 /-- the invariant of every run -/
